@@ -240,8 +240,11 @@ class Run:
         ev = {"property_id": self.pid, "tier": self.tier, "seed": self.seed, "level": level, "coverage": cov,
               "assumptions": self.assumptions, "wall_s": round(time.time() - self.t0, 1),
               "violations": len(self.violations)}
-        os.makedirs(EVID, exist_ok=True)
-        with open(os.path.join(EVID, "%s.json" % self.pid), "w") as f:
+        # evidence describes /repo itself: a self-test run against a scratch worktree (VERIF_REPO) writes elsewhere
+        evdir = EVID if REPO == "/repo" else os.path.join(VERIF, ".work", "evidence-scratch")
+        os.makedirs(evdir, exist_ok=True)
+        ev["repo"] = REPO
+        with open(os.path.join(evdir, "%s.json" % self.pid), "w") as f:
             json.dump(ev, f, indent=1, sort_keys=True)
         if self.violations:
             sys.exit(1)
